@@ -99,6 +99,49 @@ impl<'a> Sim<'a> {
         })
     }
 
+    fn synth_pl(&mut self, sender: &str, target: Option<&str>, create_id: &str) -> Rc<Ev> {
+        let idn = self.t.below(1_000_000);
+        let v = self.cfg.v;
+        const L: [i64; 6] = [0, 25, 50, 51, 75, 100];
+        let mut m: Vec<(&str, J)> = Vec::new();
+        for f in ["ban", "kick", "invite", "redact", "events_default", "state_default", "users_default"] {
+            if self.t.chance(2, 3) {
+                let n = *self.t.pick(&L);
+                m.push((f, gen::level_value(self.t, n, v, false)));
+            }
+        }
+        let mut users: Vec<(&str, J)> = Vec::new();
+        let creator = self.creator.clone();
+        if self.t.chance(3, 4) {
+            let n = *self.t.pick(&L);
+            users.push((sender, gen::level_value(self.t, n, v, false)));
+        }
+        if let Some(tg) = target {
+            if tg != sender && self.t.chance(3, 4) {
+                let n = *self.t.pick(&L);
+                users.push((tg, gen::level_value(self.t, n, v, false)));
+            }
+        }
+        if creator != sender && Some(creator.as_str()) != target && self.t.chance(1, 2) {
+            users.push((creator.as_str(), J::Int(100)));
+        }
+        if !users.is_empty() || self.t.chance(1, 2) {
+            m.push(("users", o(users)));
+        }
+        Rc::new(Ev {
+            id: if v <= 2 { format!("$synthpl{idn}:x.example") } else { format!("$synthpl{idn}") },
+            room_id: self.room_id.clone(),
+            sender: self.creator.clone(),
+            ty: "m.room.power_levels".into(),
+            state_key: Some(String::new()),
+            content: o(m),
+            ts: 2,
+            prev: vec![],
+            auth: vec![create_id.to_string()],
+            redacts: None,
+        })
+    }
+
     /// Candidate events judged against the node's current state: real `auth_check` vs `rauth`,
     /// real `auth_types_for_event` vs `rsel`, non-interference perturbations, helper predicates.
     pub fn probe_auth(&mut self, n: usize, k: u32) {
@@ -130,6 +173,15 @@ impl<'a> Sim<'a> {
                             overrides.insert(key("m.room.member", &who), (se, sp));
                         }
                     }
+                }
+            }
+            // a synthetic power-levels entry widens the (sender level × target level × threshold) product
+            if self.t.chance(1, 3) {
+                let target = ev.state_key.clone().filter(|k| k.starts_with('@'));
+                let se = self.synth_pl(&ev.sender, target.as_deref(), &create_id);
+                if let Ok(sp) = conv::pdu_from_ev(&se) {
+                    overrides.insert(key("m.room.power_levels", ""), (se, sp));
+                    self.bump("probe.synthetic-power-levels");
                 }
             }
             let verdict = {
@@ -351,7 +403,15 @@ impl<'a> Sim<'a> {
             12 => {
                 ty = "m.room.redaction".into();
                 content = o(vec![("reason", J::s("r"))]);
-                let tid = if v <= 2 || self.t.chance(1, 3) { format!("$m1:{}", revent::server_of_user(if self.t.chance(1, 2) { &actor } else { &target }).unwrap_or("x")) } else { "$someevent".to_string() };
+                let tid = if v <= 2 || self.t.chance(1, 3) {
+                    match self.t.below(5) {
+                        0 | 1 => format!("$m1:{}", revent::server_of_user(&actor).unwrap_or("x")),
+                        2 | 3 => format!("$m1:{}", revent::server_of_user(&target).unwrap_or("x")),
+                        _ => "$m1:elsewhere.example".to_string(),
+                    }
+                } else {
+                    "$someevent".to_string()
+                };
                 if v >= 11 {
                     content.set("redacts", J::Str(tid.clone()));
                 }
@@ -389,7 +449,17 @@ impl<'a> Sim<'a> {
         if !self.t.chance(1, 12) {
             auth.push(create_id.to_string());
         }
-        let id = if v <= 2 { format!("$probe{i}:{}", revent::server_of_user(&actor).unwrap_or("x")) } else { format!("$probe{i}") };
+        // v1-2: the event ID's server is chosen by whoever creates the event; it need not be the sender's
+        let id = if v <= 2 {
+            let idhost = match self.t.below(6) {
+                0 => revent::server_of_user(&target).unwrap_or("x").to_string(),
+                1 => "elsewhere.example".to_string(),
+                _ => revent::server_of_user(&actor).unwrap_or("x").to_string(),
+            };
+            format!("$probe{i}:{idhost}")
+        } else {
+            format!("$probe{i}")
+        };
         Ev { id, room_id: self.room_id.clone(), sender: actor, ty, state_key: sk, content, ts: 5, prev: prev_override.unwrap_or_else(|| tip.to_vec()), auth, redacts }
     }
 
@@ -694,7 +764,7 @@ impl<'a> Sim<'a> {
         };
         // linear prefix: create, creator join, power levels, join rules, joins
         let mut ts = 100i64;
-        let mut push = |ty: &str, sender: &str, sk: Option<&str>, content: J, prev: Vec<usize>, evs: &mut Vec<Rc<Ev>>, after: &mut Vec<Rc<StateSet>>, dag: &mut rsr2::Dag, ts: i64, c: &mut usize| -> bool {
+        let mut push = |ty: &str, sender: &str, sk: Option<&str>, content: J, prev: Vec<usize>, evs: &mut Vec<Rc<Ev>>, after: &mut Vec<Rc<StateSet>>, dag: &mut rsr2::Dag, ts: i64, c: &mut usize, drop_auth: u64| -> bool {
             let before: StateSet = match prev.len() {
                 0 => StateSet::new(),
                 1 => (*after[prev[0]]).clone(),
@@ -707,7 +777,15 @@ impl<'a> Sim<'a> {
                     }
                 }
             };
-            let Some(auth) = sel_ids(ty, sender, sk, &content, &before) else { return false };
+            let Some(mut auth) = sel_ids(ty, sender, sk, &content, &before) else { return false };
+            // a sending server may list fewer auth events than the selection names (resolution reads the
+            // sender's level through the listed ones, not through the state)
+            if drop_auth > 0 && auth.len() > 1 {
+                let victim = (drop_auth as usize - 1) % auth.len();
+                if before.get(&key("m.room.create", "")) != Some(&auth[victim]) || drop_auth % 5 == 0 {
+                    auth.remove(victim);
+                }
+            }
             let e = Rc::new(Ev { id: next_id(c), room_id: room.clone(), sender: sender.to_string(), ty: ty.to_string(), state_key: sk.map(|x| x.to_string()), content, ts, prev: prev.iter().map(|&i| evs[i].id.clone()).collect(), auth, redacts: None });
             let look = |t: &str, k: &str| before.get(&key(t, k)).and_then(|id| dag.get(id)).cloned();
             if rauth::auth(&e, &rauth::Ctx { v, state: &look }) != rauth::Verdict::Allow {
@@ -724,20 +802,20 @@ impl<'a> Sim<'a> {
             cc.insert("creator".to_string(), J::Str(users[0].clone()));
         }
         cc.insert("room_version".to_string(), J::Str(v.to_string()));
-        if !push("m.room.create", &users[0], Some(""), J::Obj(cc), vec![], &mut evs, &mut after, &mut dag, ts, &mut counter) {
+        if !push("m.room.create", &users[0], Some(""), J::Obj(cc), vec![], &mut evs, &mut after, &mut dag, ts, &mut counter, 0) {
             return;
         }
         let mut last = |evs: &Vec<Rc<Ev>>| vec![evs.len() - 1];
         let p = last(&evs);
-        push("m.room.member", &users[0], Some(&users[0]), o(vec![("membership", J::s("join"))]), p, &mut evs, &mut after, &mut dag, ts + 1, &mut counter);
+        push("m.room.member", &users[0], Some(&users[0]), o(vec![("membership", J::s("join"))]), p, &mut evs, &mut after, &mut dag, ts + 1, &mut counter, 0);
         let pl_users: Vec<(&str, J)> = users.iter().zip(levels.iter()).map(|(u, l)| (u.as_str(), J::Int(*l))).collect();
         let p = last(&evs);
-        push("m.room.power_levels", &users[0], Some(""), o(vec![("users", o(pl_users))]), p, &mut evs, &mut after, &mut dag, ts + 2, &mut counter);
+        push("m.room.power_levels", &users[0], Some(""), o(vec![("users", o(pl_users))]), p, &mut evs, &mut after, &mut dag, ts + 2, &mut counter, 0);
         let p = last(&evs);
-        push("m.room.join_rules", &users[0], Some(""), o(vec![("join_rule", J::s("public"))]), p, &mut evs, &mut after, &mut dag, ts + 3, &mut counter);
+        push("m.room.join_rules", &users[0], Some(""), o(vec![("join_rule", J::s("public"))]), p, &mut evs, &mut after, &mut dag, ts + 3, &mut counter, 0);
         for u in users.iter().skip(1) {
             let p = last(&evs);
-            push("m.room.member", u, Some(u), o(vec![("membership", J::s("join"))]), p, &mut evs, &mut after, &mut dag, ts + 4, &mut counter);
+            push("m.room.member", u, Some(u), o(vec![("membership", J::s("join"))]), p, &mut evs, &mut after, &mut dag, ts + 4, &mut counter, 0);
         }
         ts += 10;
         // random walk with forks
@@ -780,7 +858,11 @@ impl<'a> Sim<'a> {
                 8 => ("m.room.join_rules", Some(String::new()), o(vec![("join_rule", J::s(*self.t.pick(&["public", "invite"])))])),
                 _ => ("org.x.state", Some((*self.t.pick(&["", "k"])).to_string()), o(vec![("v", J::Int(self.t.below(100) as i64))])),
             };
-            if push(ty, &actor, sk.as_deref(), content, prev, &mut evs, &mut after, &mut dag, tsx, &mut counter) {
+            let drop_auth: u64 = if self.t.chance(1, 6) { 1 + self.t.below(20) as u64 } else { 0 };
+            if drop_auth > 0 {
+                self.bump("probe.synthetic-room.event-with-auth-event-omitted");
+            }
+            if push(ty, &actor, sk.as_deref(), content, prev, &mut evs, &mut after, &mut dag, tsx, &mut counter, drop_auth) {
                 ts += 1;
             }
         }
